@@ -235,6 +235,13 @@ func callWrites(e *Engine, c *ssa.CallCommon, ws writeSetT) {
 		callee = v.Fn.(*ssa.Function)
 	}
 	if callee == nil {
+		// function value with a `field` contract: its declared frame (incl. ghost effects)
+		if fs := (&FnCtx{eng: e}).fieldSpecFor(c.Value); fs != nil {
+			for _, m := range fs.Modifies {
+				ws.add(e.resolveModifies(fs.Pkg, m), wFull)
+			}
+			return
+		}
 		// unknown function value: may write through the struct pointers it receives
 		if _, isFn := fieldSpecKeyOf(c.Value); !isFn {
 			for _, a := range c.Args {
